@@ -52,7 +52,9 @@ for kind, want in (('mutants', 1), ('neutral', 0)):
                 os.remove(f)
         finally:
             clean()
-        ok = (c.returncode == want) and tests != 'FAIL' and replay_ok is not False
+        # a mutant that the repository's own tests also catch is still a valid sensitivity probe;
+        # a neutral variant must pass them
+        ok = (c.returncode == want) and (tests != 'FAIL' or kind == 'mutants') and replay_ok is not False
         bad += 0 if ok else 1
         results[name] = {'kind': kind, 'tests': tests, 'check_exit': c.returncode, 'expected_exit': want, 'ok': ok, 'seconds': round(time.time() - t0, 1), 'replay_reproduces_and_vanishes_after_revert': replay_ok, 'lines': lines[:6]}
         print('%-40s tests=%-7s check exit=%d (want %d) replay=%s %s  %.0fs' % (name, tests, c.returncode, want, replay_ok, 'ok' if ok else '<<<<<< UNEXPECTED', time.time() - t0))
